@@ -110,6 +110,9 @@ def _origin(cfg, rd, node, e, depth, seen):
     if isinstance(e, ast.BoolOp):
         return ("or" if isinstance(e.op, ast.Or) else "and",
                 tuple(_origin(cfg, rd, node, v, depth + 1, seen) for v in e.values))
+    if isinstance(e, ast.JoinedStr):
+        return ("call", ("global", "<f-string>"),
+                tuple(_origin(cfg, rd, node, v.value, depth + 1, seen) for v in e.values if isinstance(v, ast.FormattedValue)), ())
     if isinstance(e, ast.BinOp):
         return ("binop", type(e.op).__name__, _origin(cfg, rd, node, e.left, depth + 1, seen),
                 _origin(cfg, rd, node, e.right, depth + 1, seen))
